@@ -20,6 +20,7 @@ inductive TStmt where
   | each (cl : TClause)          -- `for f in c.fanin(n): formula.append(cl)`
   | one (cl : TClause)           -- `formula.append(cl)`
   | guard (cl : TClause)         -- `if c.fanin(n): f = c.fanin(n).pop(); formula.append(cl)`
+  | orElse (cl : TClause)        -- `else: formula.append(cl)` of that `if` (undriven node)
 deriving DecidableEq, Repr, Inhabited
 
 structure CnfTables where
@@ -70,8 +71,9 @@ def cnf : CnfTables := {
     (["nand"], [each [lit true n, lit true f], one [lit false n, allF false]]),
     (["or"], [each [lit true n, lit false f], one [lit false n, allF true]]),
     (["nor"], [each [lit false n, lit false f], one [lit true n, allF true]]),
-    (["not"], [guard [lit true n, lit true f], guard [lit false n, lit false f]]),
-    (["buf", "bb_input"], [guard [lit true n, lit false f], guard [lit false n, lit true f]]),
+    (["not"], [guard [lit true n, lit true f], guard [lit false n, lit false f], orElse [lit true n, lit false n]]),
+    (["buf", "bb_input"], [guard [lit true n, lit false f], guard [lit false n, lit true f],
+                           orElse [lit true n, lit false n]]),
     (["0"], [one [lit false n]]),
     (["1"], [one [lit true n]]),
     (["bb_output", "input"], [one [lit true n, lit false n]])
